@@ -441,6 +441,36 @@ func runC03(r *Run) {
 		}
 		r.check(cm >= 1, "findParamLen:counts-occurrences", r.fpos(m), "the matcher counts occurrences of ComparePart in the rest of the path", "the matcher no longer counts occurrences of ComparePart")
 	})
+
+	r.rule("R6", "Params returns the values as sent: what the matchers store into the value array is cut from the path as sent (or constant), never from the normalised detection path, which is case-folded and trimmed (E3)", func() {
+		n := 0
+		for _, name := range []string{"(*Route).match", "(*routeParser).getMatch"} {
+			f := r.Fn("", name)
+			var detection ssa.Value
+			for _, p := range f.Params {
+				if p.Name() == "detectionPath" {
+					detection = p
+				}
+			}
+			r.need(detection != nil, name+" takes the detection path")
+			{
+				for _, in := range instrsWhereOne(f, func(in ssa.Instruction) bool { _, ok := in.(*ssa.Store); return ok }) {
+					st := in.(*ssa.Store)
+					ia, ok := st.Addr.(*ssa.IndexAddr)
+					if !ok {
+						continue
+					}
+					if p, ok := stripValue(ia.X).(*ssa.Parameter); !ok || p.Name() != "params" {
+						continue
+					}
+					n++
+					r.check(!contentFrom(st.Val, detection), fmt.Sprintf("%s:value-store#%d:from-path-as-sent", name, n), r.pos(in), "the stored value does not derive from the detection path",
+						"a parameter value is cut from the normalised detection path: with CaseSensitive off Params returns docs/readme.md for /Docs/README.md (and loses what non-strict routing trims)")
+				}
+			}
+		}
+		r.atLeast("stores into the value array", n, 3)
+	})
 }
 
 // byteSetVars evaluates package-level `[]byte{...}` / `append([]byte{...}, other...)` initialisers.
